@@ -53,6 +53,10 @@ class ByNameStream(InvalidStream):
                                     invalid_p=0.3) for _ in range(n)]
 
 
+class Expectation(Exception):
+    """a harness-level expectation failed (distinct from the library's own rejections)"""
+
+
 BASES = ["a0", "b0", "a", "a_b", "b", "a0_x", "x"]
 MODES = [None, "b", "x", "te", "b_x"]
 
@@ -96,7 +100,7 @@ class NameStream(Stream):
 
     def run(self, d):
         pins = [Pin(b, m) for b, m in d["pins"]]
-        ok, lookups = True, []
+        ok, lookups, objs = True, [], []
         try:
             m = lk.Model(pin_dic={p: i for i, p in enumerate(pins)})
             if d["ren"]:
@@ -108,17 +112,45 @@ class NameStream(Stream):
                 nb, nm = rmap.get((b0, m0), (b0, m0))
                 if m.pin_dic.get(Pin(nb, nm)) != i:
                     raise ValueError("a renamed pin no longer addresses its own port")
+            # addressing by Pin OBJECT in Model.put: own pins and foreign pins that merely print like an own pin
+            cands = []
+            for p in m.pin_dic:
+                cands.append(p)
+                if p.mode_name is not None:
+                    cands.append(Pin(p.name))
+                elif "_" in p.basename:
+                    b1, b2 = p.basename.split("_", 1)
+                    cands.append(Pin(b1, b2))
+            for o in cands[:6]:
+                sol = lk.Solver()
+                with sol:
+                    partner = lk.Waveguide(1.0).put()
+                    before = (len(sol.structures), dict(sol.connections), list(sol.free_pins))
+                    try:
+                        st = m.put(o, (partner, "a0"))
+                        acc = True
+                        if (st, o) not in sol.connections_list:
+                            raise Expectation("accepted placement did not make the requested link")
+                    except Expectation:
+                        raise
+                    except Exception:
+                        acc = False
+                        # the placement itself may have been registered before the rejected link; the LINK tables must be untouched
+                        if dict(sol.connections) != before[1] or (partner, Pin("a0")) not in sol.free_pins:
+                            raise Expectation("a rejected put changed the link tables")
+                objs.append(((o.basename, o.mode_name), acc))
             table = m.pin if d["via"] == "model" else {k: v[1] for k, v in Structure(model=m).pin.items()}
             for q in d["queries"]:
                 p = table.get(q)
                 lookups.append(None if p is None else (p.basename, p.mode_name))
         except Exception:
             ok = False
-        return ("{| nm_pins := %s; nm_ren := %s; nm_queries := %s; nm_ok := %s; nm_lookups := %s |}"
+        return ("{| nm_pins := %s; nm_ren := %s; nm_queries := %s; nm_ok := %s; nm_lookups := %s; nm_objs := %s |}"
                 % (clist(pin_lit(p) for p in d["pins"]),
                    clist("(%s, %s)" % (pin_lit(a), pin_lit(b)) for a, b in d["ren"]),
                    clist(cstr(q) for q in d["queries"]), "true" if ok else "false",
-                   clist("None" if p is None else "Some " + pin_lit(p) for p in lookups)))
+                   clist("None" if p is None else "Some " + pin_lit(p) for p in lookups),
+                   clist("(%s, %s)" % (pin_lit(p), "true" if a else "false") for p, a in objs)))
 
     def nontrivial(self, d):
         return len(d["pins"]) >= 2
